@@ -482,6 +482,14 @@ spec.contract(
               lambda s: Iff(s.result, within(s, GA(s), S(s.treatment_geos),
                                              S(s.control_geos))))])
 
+for _q in ['treatment_group_size_range', '_control_group_size_generator',
+           'treatment_group_generator', 'control_group_generator',
+           'design_within_constraints']:
+  from mmverif.engine.specs import clauses as _clauses
+  spec.contracts[CLS + '.' + _q].ensures.extend(_clauses(
+      [('afterwards the geo index of geo_assignments is installed',
+        installed)], ('C10',)))
+
 LEMMAS = []
 FUNCTIONS = [
     CLS + '.geos_over_budget', CLS + '.geos_too_large',
@@ -491,3 +499,8 @@ FUNCTIONS = [
     CLS + '.treatment_group_generator', CLS + '.control_group_generator',
     CLS + '._constraint_not_satisfied', CLS + '.design_within_constraints',
 ]
+
+
+def _load_second_part():
+  from mmverif.contracts import tbrmm_search_spec as second
+  FUNCTIONS.extend(q for q in second.FUNCTIONS2 if q not in FUNCTIONS)
